@@ -385,7 +385,7 @@ pub fn random_case(r: &mut Rng, max_len: usize) -> Case {
 }
 
 pub fn run(cfg: &Cfg, rep: &mut Report) {
-  let total = cfg.n(120_000, 20_000_000);
+  let total = cfg.n(600_000, 20_000_000);
   let max_len = cfg.n(10, 18);
   let mut rng = Rng::new(cfg.seed ^ 0xC11);
   for i in 0..total {
